@@ -9,10 +9,13 @@
 //                               (0 leaf, 1 branch, 2 branch+value, 3 leaf hashed, 4 branch hashed)
 //   <tree> ::= L <nibbles> <value> <mbh 0|1>
 //            | B <nibbles> <value|none> <mbh 0|1> <child>*16        <child> ::= _ | <tree>
-// observables (first token of every line: p<u><b>, u/b = 1 when pkg/scale rejects short reads in
-// decodeUint / decodeBytes, probed on the tree under test):
-//   dec -> <result>             <result> ::= nil | err:<class> | panic | <node>
-//   enc -> <encoding hex> <result>          (or "encpanic" / "encerr")
+// observables (first token of every line: p<u><b><e>, u/b = 1 when pkg/scale rejects short reads in
+// decodeUint / decodeBytes, e = 1 when Encode of a decoded leaf with a hashed value gives back the
+// bytes it was decoded from (fixes/C07-encode-decoded-hashed-value.patch) — probed on the tree under test):
+//   dec -> <result>[ R <reenc>] <result> ::= nil | err:<class> | panic | <node>
+//   enc -> <encoding hex> <result>[ R <reenc>]          (or "encpanic" / "encerr")
+//   <reenc> (only when <result> is a node): the decoded node passed to Encode again:
+//           <hex> | encerr | encpanic | skip (the node holds a byte string above 2^18 bytes)
 //   hdr -> <bytes> <variant name> <len> | hdr-err:<class> | panic
 //   <node>  ::= S <zb> | L <nibbles> <val> | B <nibbles> <val|none> <descendants> <c>*16
 //   <c>     ::= _ | <node>     <val> ::= i:<zb> | h:<hex>
@@ -49,7 +52,20 @@ func c07Probe() string {
 		if err := scale.Unmarshal([]byte{0x08, 0x01}, &x); err != nil {
 			b = "1"
 		}
-		c07probe = "p" + u + b
+		e := "0"
+		func() {
+			defer func() { recover() }()
+			enc := append([]byte{0x21, 0x01}, bytes.Repeat([]byte{7}, 32)...)
+			n, err := Decode(bytes.NewReader(enc))
+			if err != nil || n == nil {
+				return
+			}
+			buf := bytes.NewBuffer(nil)
+			if n.Encode(buf) == nil && bytes.Equal(buf.Bytes(), enc) {
+				e = "1"
+			}
+		}()
+		c07probe = "p" + u + b + e
 	})
 	return c07probe
 }
@@ -168,7 +184,41 @@ func c07decode(b []byte) (res string) {
 	}
 	var sb strings.Builder
 	c07node(&sb, n)
+	sb.WriteString(" R " + c07reencode(n))
 	return sb.String()
+}
+
+// c07big: the decoded node holds a byte string above 2^18 bytes (a declared, zero-filled length).
+func c07big(n *Node) bool {
+	if n == nil {
+		return false
+	}
+	if len(n.StorageValue) > 1<<18 || len(n.MerkleValue) > 1<<18 {
+		return true
+	}
+	for _, c := range n.Children {
+		if c07big(c) {
+			return true
+		}
+	}
+	return false
+}
+
+// c07reencode passes a node that Decode returned to Encode.
+func c07reencode(n *Node) (res string) {
+	if c07big(n) {
+		return "skip"
+	}
+	defer func() {
+		if p := recover(); p != nil {
+			res = "encpanic"
+		}
+	}()
+	buf := bytes.NewBuffer(nil)
+	if err := n.Encode(buf); err != nil {
+		return "encerr"
+	}
+	return vu.Hex(buf.Bytes())
 }
 
 // c07parse builds a node tree from tokens.
